@@ -204,6 +204,8 @@ func (fc *FnCtx) lockOp(fr *Frame, st *State, reach string, op string, mu Val, c
 	vars := map[string]Val{m.Self: self}
 	if acquire {
 		// other threads may have changed the guarded data: havoc, then assume the invariant
+		fc.inAcquire = true
+		defer func() { fc.inAcquire = false }()
 		for _, a := range fc.guardAddrs(m, base) {
 			if _, isMap := a.T.Underlying().(*types.Map); isMap {
 				// the map reference itself is stable; its contents are havocked
@@ -260,6 +262,13 @@ func (fc *FnCtx) ownedGhost(t types.Type) string {
 // an owned object requires holding its ownership token.
 func (fc *FnCtx) guardedAccess(fr *Frame, st *State, reach string, a *Addr, write bool) {
 	if fc.quiet > 0 {
+		return
+	}
+	if a.Alt != nil {
+		p := *a
+		p.Alt, p.AltCond = nil, ""
+		fc.guardedAccess(fr, st, tAnd(reach, a.AltCond), &p, write)
+		fc.guardedAccess(fr, st, tAnd(reach, tNot(a.AltCond)), a.Alt, write)
 		return
 	}
 	if a.Kind == AObj {
